@@ -25,7 +25,8 @@ class C12(CheckBase):
     rule = ("plan = (tool in {exp2cxx, exp2python, exppp, schema_scanner}) x (schema: shipped data/*.exp, hand-written kitchen sink, seeded generated "
             "schemas) x (one seeded perturbation record: heap seed for the LD_PRELOAD shim [placement, padding, fill byte, scribbled frees, dirtied stack], "
             "environment padding, loader variant, cwd name/depth, input path spelling, LC_ALL, EXPRESS_PATH, other environment variables (HOME, TMPDIR, LANG, USER, TZ, COLUMNS, ...), clock, 0..2 earlier runs in the same "
-            "directory); the perturbed run's output tree and exit status are compared with the reference run (all dimensions at their base value). "
+            "directory); the perturbed run's output tree and exit status are compared with the reference run (all dimensions at their base value); "
+            "in addition no output file may contain the path of the directory the tool was built in. "
             "non-trivial = the reference run wrote >= 1 file and the perturbation differs from the base in >= 1 dimension; "
             "distinct = hash(tool, schema, set of perturbed dimensions)")
     components_real = ["exp2cxx", "exp2python", "exppp", "schema_scanner", "libexpress (plain build of /repo's working tree)", "glibc dynamic loader"]
@@ -129,6 +130,8 @@ class C12(CheckBase):
         if (ref["rc"], ref["sig"]) != (got["rc"], got["sig"]):
             out.append({"class": "C12/%s/exit-status-differs" % tool, "detail": "reference run ended rc=%s sig=%s, perturbed run rc=%s sig=%s; stderr tail: %s" % (
                 ref["rc"], ref["sig"], got["rc"], got["sig"], got["stderr"][-300:])})
+        if got.get("embeds_build_path"):
+            out.append({"class": "C12/%s/embeds-build-path" % tool, "detail": "generated files name the directory the generator was built in (not a function of the schema): %s" % got["embeds_build_path"]})
         rt, gt = ref["tree"], got["tree"]
         if sorted(rt) != sorted(gt):
             only_r = sorted(set(rt) - set(gt))[:6]
@@ -169,7 +172,7 @@ class C12(CheckBase):
 
 
 def slim(o):
-    return {"rc": o["rc"], "sig": o["sig"], "timed_out": o["timed_out"], "tree": o["tree"], "n_files": o["n_files"],
+    return {"rc": o["rc"], "sig": o["sig"], "timed_out": o["timed_out"], "tree": o["tree"], "n_files": o["n_files"], "embeds_build_path": o.get("embeds_build_path", []),
             "stderr": o["stderr"][-600:], "prior_rcs": o["prior_rcs"]}
 
 
